@@ -199,6 +199,35 @@ CLAIMED.update({
     design='7 (C19)'),
 })
 
+CLAIMED.update({
+ 'C05': dict(
+    text='Machine-checked proofs (Lean 4) on a model of the conciliation strategies (strategy.py), Context.conflicts/conflicting and the '
+         'OPERATION / CONCILIATION decisions of the instance FSM model, for every view over any number of processes and instances: STOP / RESTART / '
+         'RUNNING_FAILURE / USER stop clause in full, SENICIDE / INFANTICIDE keep the youngest / oldest and stop every other copy when no listed '
+         'instance is STOPPING, RESTART defers exactly one start, RUNNING_FAILURE delegates to the failure handler, USER does nothing, unmanaged '
+         'duplicates never trigger, detection and conciliation only by the Master, once the stops are acknowledged no conflict remains (composed with '
+         'the process model) and the FSM returns to OPERATION. Tie: lock-step with the real strategy classes / Stopper / Starter / FSM of a Master instance.',
+    note='Partial: the full stop clause is REFUTED for SENICIDE / INFANTICIDE when a STOPPING instance is listed (kernel-checked witness, replayed on the '
+         'code; known finding stopping-copy-counted) and "never stopping a process that is not in conflict" likewise; known finding '
+         'restart-dropped-stopping-elsewhere. One defect repaired (896a4df). Trusted: harness/c05.py, Drv/C05.lean; the Stopper/Starter are the real ones '
+         '(their model is Supv.Cmd, tied by the commander checks).',
+    technique='Lean 4 proofs on the strategy model for every view + kernel-checked refutation witnesses + lock-step correspondence',
+    design='7 (C05)'),
+ 'C08': dict(
+    text='Machine-checked proofs (Lean 4): the set of states each FSM state class can decide - regenerated from the current statemachine.py by the '
+         'translator (AST: every return of next / _master_next / _slave_next / _check_consistence / _check_closing along the class hierarchy, plus '
+         '"follows the Master state") - is accepted by the regenerated transition table, so no decision is refused forever (C08_decisions_accepted, '
+         'C08_decisions_complete, C08_who_follows_master), and the hand-written instance model decides exactly those states. Tie: global lock-step of '
+         'N real instances with the Lean cluster model; quiescence judge on the real cluster 24 quiet ticks after the last disturbance.',
+    note='Partial: "returns to OPERATION within a bounded number of ticks" is a liveness claim under fair schedules: it is NOT proved; what is proved is '
+         'the absence of the structural causes of parking (refused decisions); parking is searched for on the real cluster at quiescence (no-parking judge), '
+         'which found and led to the repair of two defects (5a7047d: DISTRIBUTION->SYNCHRONIZATION and CONCILIATION->ELECTION were refused by the table '
+         'forever; e607c09: a Slave stayed in ELECTION forever once its Master was past DISTRIBUTION). The application-free cluster is explored. '
+         'Trusted: tools/extract.py (G5), harness/c08.py, harness/cluster.py, Drv/Net.lean.',
+    technique='Lean 4 proof over the regenerated decision/transition tables + global lock-step correspondence + quiescence judge on the real cluster',
+    design='7 (C08)'),
+})
+
 NOT_YET = {}
 
 def main():
